@@ -13,6 +13,8 @@ ASSUMPTIONS = TRUSTED_BASE + [
     "(entropy = configured seed, spawn counter, bit-generator state: C07's restart clause, real numpy) and (b) pick_lock re-issues exactly the recorded in-flight (ensemble, path) jobs, in order, before any fresh pick (per abstract state)",
     "BOUNDED replay of the property itself: the real program (TurtleMD double well, wire-fencing moves, allowmaxlength = true as the property's scope allows) is run N = 5 steps in one go and as k + (N-k) with a restart for every 0 < k < N, "
     "for seeds 0 and 7 (quick: seed 7 only, k in {2, 4}); infretis_data.txt, restart.toml (minus restarted_from) and the order files of the active paths must be byte-identical; two same-seed runs identical",
+    "proved per shape (E1 slices of setup_config): (c) which file a restart continues from -- restart.toml exactly when it exists, is not the input itself and every section of the input is unchanged -- and (d) the restart entry (stop iff cstep == restarted_from, "
+    "else restarted_from := cstep and continue iff every active path is on disk; a fresh start initialises `current`); (e) the default-filling block is a fixed point (C18). tomli.load / open are stubs returning the file's dictionary",
     "not covered: chains of several restarts, plug-in engines, multi-worker byte identity",
 ]
 EXPLANATION = (
@@ -26,6 +28,10 @@ def jobs(tier):
     js += [("py", {"name": "pick_lock_reissues", "module": "props.C06", "fn": "pick_lock_reissues"}),
           ("py", {"name": "load_paths_weights", "module": "props.C06", "fn": "load_paths_weights"}),
           ("py", {"name": "restart_streams", "module": "props.C07", "fn": "restart_streams"})]
+    js += [("e1", {"name": "setup_config_merge", "registry": "contracts.setup_norm", "key": "setup_config#merge",
+                   "clause": "a restart continues from restart.toml exactly when it exists (and is not the input itself) and every section of the input file is unchanged; otherwise from the input", "cost": 1, "parallel": 2}),
+           ("e1", {"name": "setup_config_current", "registry": "contracts.setup_norm", "key": "setup_config#current",
+                   "clause": "restart entry: stop iff cstep == restarted_from, else restarted_from := cstep and continue iff every active path is on disk", "cost": 1, "parallel": 2})]
     seeds = (7,) if tier == "quick" else (0, 7, 123)
     ks = (2, 4) if tier == "quick" else (1, 2, 3, 4)
     for sd in seeds:
